@@ -30,7 +30,7 @@ import (
 )
 
 var (
-	memfs    = afero.NewMemMapFs()
+	memfs    = hutil.NewStrictFs()
 	initOnce sync.Once
 )
 
